@@ -187,8 +187,10 @@ func cachingHandler(router proxy.Router, logger *apexlog.Logger, conf *config.Co
 					for i := 0; i < len(ts); i++ {
 						select {
 						case waitedKeyInfo := <-*cr.WaitChan:
-							// the key Get returns carries this request's own hold on the lock if it became the writer
-							cr, key, err = cache.Get(ctx, rf.CacheId, rf.ForceRevalidate, waitedKeyInfo.CanUseStale, []caching.Key{waitedKeyInfo.Key}, *w, logger)
+							// the key Get returns carries this request's own hold on the lock if it became the writer.
+							// The entry is looked up under the key the writer stored it under, but on behalf of this
+							// request: with this client's validators, not the writer's client's.
+							cr, key, err = cache.Get(ctx, rf.CacheId, rf.ForceRevalidate, waitedKeyInfo.CanUseStale, []caching.Key{waitedKeyInfo.Key.ForClientOf(key)}, *w, logger)
 							if err != nil {
 								writeError(*w, err)
 								return
